@@ -1357,12 +1357,13 @@ PPL::Grid::add_recycled_grid_generators(Grid_Generator_System& gs) {
     return;
   }
 
+  // Updating the generators may find the grid to be empty.
+  if (!marked_empty() && !generators_are_up_to_date()) {
+    (void) update_generators();
+  }
+
   if (!marked_empty()) {
     // The grid contains at least one point.
-
-    if (!generators_are_up_to_date()) {
-      update_generators();
-    }
     normalize_divisors(gs, gen_sys);
 
     gen_sys.insert(gs, Recycle_Input());
